@@ -3,6 +3,7 @@ import itertools
 import json
 import random
 
+import genproof
 import vf
 
 TRUSTED = [
@@ -122,6 +123,17 @@ def run(rep, tier, seed, replay):
                        "monitored for exactly-once, per-producer order, batch bound and empty queue after the final tick; non-trivial = sequence of >= 3 operations / "
                        "stress run; distinct by case" % (sum(1 for c in cases), depth, len(stress), "race detector on" if binary == "hx_race" else "race detector off in the quick tier"))
     rep.cov["exhaustive"] = True
+    # the generated lock obligation behind the model's atomic critical sections
+    ok, log = genproof.regenerate()
+    if not ok:
+        rep.violation("the access table could not be regenerated from /repo", dict(log=log), no_input=True)
+    else:
+        ok, out = genproof.compile_obligation("C16_locks.v")
+        rep.extra["lock_obligation"] = "C16_queue_fields_locked " + ("checked" if ok else "FAILED")
+        if not ok:
+            sites = genproof.unlocked_sites(["pkg/event.EventQueue.q"], "EventQueue.m")
+            rep.violation("generated obligation C16_queue_fields_locked no longer checks: the queue's pending slice is accessed outside eq.m",
+                          dict(unlocked_sites=sites, theorem="coq/theories/Properties/C16_locks.v", coqc=out[-800:]), no_input=not rep.violations)
     rep.extra["disagreements_with_model"] = nbad
     rep.extra["race_detector"] = binary == "hx_race"
     rep.sample(dict(case=cases[len(cases) // 2], impl=impl[len(cases) // 2]))
